@@ -148,6 +148,11 @@ def run(ctx):
         st = schemes.streams(r, cls, ctx.tier)
         base = st.get("grammar", ["1.0"])
         pool = st["malformed"] + [mutate(r, r.choice(base)) for _ in range(n)] + NONASCII
+        # characters that str.isdigit() accepts and int() refuses (superscripts, circled digits), a digit of another
+        # script that int() accepts, and a non-ASCII letter, at every place of a few grammar strings
+        for b in list(dict.fromkeys(["1.0.1", "1.0.1a"] + base[:4])):
+            for ch in "\u00b2\u2460\u0661\u00e9":
+                pool += [b + ch, ch + b] + [b[:i] + ch + b[i + 1:] for i in range(len(b))][:12]
         for s in pool:
             attempt("ctor:" + cls.__name__, InvalidVersion, lambda: cls(s), s, "malformed")
     # ---- vers text
